@@ -353,7 +353,7 @@ func (e *engine) runHistory(ops []op, gen string) {
 	// the strict reading: a link already reported lost is never reported again
 	if mon == "" {
 		for id := range wantLive {
-			if everLost[id] && gen == "est-after-lost" {
+			if everLost[id] && gen == "est-after-lost" && e.a.Prop == "C06" {
 				mon = fmt.Sprintf("link %d is reported although it was reported lost before its establishment was processed (history %s)", id, strings.Join(ss, ","))
 				key = "links.hist:est-after-lost"
 			}
